@@ -220,8 +220,8 @@ VARIANTS = {
           (SS, 'rays.u = 1 / n2 * (n1 * rays.u - rays.y * power)',
            'rays.u = 1 / n1 * (n1 * rays.u - rays.y * power)')),
         M('reflection-factor',
-          (SS, 'rays.u = -rays.u - 2 * rays.y / self.geometry.radius',
-           'rays.u = -rays.u - rays.y / self.geometry.radius')),
+          (SS, 'rays.u = -rays.u - 2 * rays.y / radius',
+           'rays.u = -rays.u - rays.y / radius')),
         M('propagate-z-only',
           (O + 'rays/paraxial_rays.py', 'self.y += t * self.u',
            'self.y += self.u')),
